@@ -191,172 +191,172 @@ func checkQuantifier(r *Run, prog *Program, a *Anchors, pfx string) {
 		isAny := oc.Name() == "CollectionOpAny"
 		r.Check(pfx+".operator-has-spec", oc.Name(), prog.pos(oc.Pos()), isAll || isAny, "collection operator "+oc.Name()+" is neither `any` nor `all`")
 		for _, mc := range modes {
-		for _, o := range []outcome{oT, oF, oEF, oET} {
-			o, oc, mc := o, oc, mc
-			ps := NewPathSim(prog)
-			ps.maxVisits = 3
-			ps.Inline = func(c *ssa.Function) bool {
-				return prog.InModule(c) && c != a.Dispatch && c != a.GetValue && c != wlv && c != a.GetOpts && c != a.MatchEval && !strings.HasPrefix(c.Name(), "With")
-			}
-			ps.Seed = func(st *pstate) {
-				st.eqc[opKey] = constKey(oc)
-				st.eqc[loadField(pExpr, "NameBinding", "Mode").Key()] = constKey(mc)
-				for _, f := range []string{"Default", "Index", "Value"} {
-					set := false
-					for _, n := range modeNames[mc.Name()] {
-						if n == f {
-							set = true
-						}
-					}
-					assume(st, &Sym{K: sCmp, Op: token.EQL, A: loadField(pExpr, "NameBinding", f), B: &Sym{K: sConst, C: constant.MakeString("")}}, !set)
+			for _, o := range []outcome{oT, oF, oEF, oET} {
+				o, oc, mc := o, oc, mc
+				ps := NewPathSim(prog)
+				ps.maxVisits = 3
+				ps.Inline = func(c *ssa.Function) bool {
+					return prog.InModule(c) && c != a.Dispatch && c != a.GetValue && c != wlv && c != a.GetOpts && c != a.MatchEval && !strings.HasPrefix(c.Name(), "With")
 				}
-			}
-			errs := map[string]bool{}
-			ps.Model = func(ev *Event) *Sym {
-				if ev.Callee == a.GetValue {
-					return &Sym{K: sTuple, Kids: []*Sym{{K: sOpaque, V: ev.Instr.Value(), Str: "collection"}, {K: sConst, C: constant.MakeBool(true)}, nilSym()}}
-				}
-				if ev.Callee != nil && prog.InModule(ev.Callee) && isBoolErr(ev.Callee.Signature) && len(ev.Args) > 0 && ev.Args[0].Key() == loadField(pExpr, "Inner").Key() {
-					var e *Sym = nilSym()
-					if o.isErr() {
-						e = &Sym{K: sNewErr, V: ev.Instr.Value(), Str: "body"}
-						errs[e.Key()] = true
-					}
-					return &Sym{K: sTuple, Kids: []*Sym{{K: sConst, C: constant.MakeBool(o.boolVal())}, e}}
-				}
-				return nil
-			}
-			for _, sm := range ps.Run(fn) {
-				if sm.Panic != nil || len(sm.Results) != 2 {
-					r.Check(pfx+".fold", "shape", prog.pos(fn.Pos()), false, "panic or unexpected result shape")
-					continue
-				}
-				pos := prog.pos(sm.Ret.Pos())
-				trail := " [path " + strings.Join(sm.St.trail, " ") + "]"
-				// the reflected collection
-				var v *Sym
-				for _, ev := range sm.Events() {
-					if ev.Instr != nil && isReflectFunc(ev.Callee, "ValueOf") && v == nil {
-						v = ev.Res
-					}
-				}
-				cell := fmt.Sprintf("%s[%s,body=%s]", oc.Name(), strings.TrimPrefix(mc.Name(), "CollectionBind"), o)
-				var bodies []Event
-				for _, ev := range sm.Events() {
-					if ev.Instr != nil && ev.Callee != nil && len(ev.Args) > 0 && ev.Args[0].Key() == loadField(pExpr, "Inner").Key() && isBoolErr(ev.Callee.Signature) {
-						bodies = append(bodies, ev)
-					}
-				}
-				iters := 0
-				for _, t := range sm.St.trail {
-					if headerT[t] {
-						iters++
-					}
-				}
-				b, e := sm.Results[0], sm.Results[1]
-				if v == nil {
-					r.Check(pfx+".fold", cell+":no-valueof", pos, false, "the collection is not inspected through reflect.ValueOf"+trail)
-					continue
-				}
-				kset := ke.kinds(sm.St, v)
-				cls := "other"
-				switch {
-				case kset.SubsetOf(ks(kSlice, kArray)):
-					cls = "list"
-				case kset.SubsetOf(ks(kMap)):
-					cls = "map"
-				case kset&ks(kSlice, kArray, kMap) != 0:
-					cls = "undetermined"
-				}
-				classes[cls]++
-				var probs []string
-				if cls == "other" || cls == "undetermined" {
-					bv, okc := b.BoolConst()
-					if !(okc && !bv && errClass(sm, e) == "nonnil" && len(bodies) == 0) || cls == "undetermined" {
-						probs = append(probs, fmt.Sprintf("a collection of kind %s must be rejected with (false, error) before any evaluation; got (%s, %s)", kset, shortKey(b), shortKey(e)))
-					}
-					r.Check(pfx+".rejects-non-collections", cell+":"+cls, pos, len(probs) == 0, strings.Join(probs, "; ")+trail)
-					continue
-				}
-				if len(bodies) == 0 && errClass(sm, e) == "nonnil" {
-					// rejected before the loop (map with non-string keys, identical placeholders)
-					bv, okc := b.BoolConst()
-					r.Check(pfx+".fold", cell+":"+cls+":rejected", pos, okc && !bv, "an error return must carry false"+trail)
-					continue
-				}
-				// every iteration evaluates the body exactly once
-				decisive := (o == oT && isAny) || (o == oF && isAll) || o.isErr()
-				expectIn := iters
-				if len(bodies) != expectIn {
-					probs = append(probs, fmt.Sprintf("%d iterations but %d evaluations of the body: every element must be evaluated exactly once until the fold is decided", iters, len(bodies)))
-				}
-				bv, known := b.BoolConst()
-				if !known {
-					bv, known = evalBool(sm.St, b)
-				}
-				switch {
-				case len(bodies) > 0 && decisive:
-					// must have returned at the first evaluation
-					if len(bodies) != 1 {
-						probs = append(probs, fmt.Sprintf("the first decisive element or first error must end the fold; %d elements were evaluated", len(bodies)))
-					}
-					if o.isErr() {
-						if !(known && !bv && errs[e.Key()]) {
-							probs = append(probs, "an element error must end the fold with (false, that error); got ("+shortKey(b)+", "+shortKey(e)+")")
-						}
-					} else if !(known && bv == o.boolVal() && e.IsNil()) {
-						probs = append(probs, fmt.Sprintf("decisive element: expected (%v, nil), got (%s, %s)", o.boolVal(), shortKey(b), shortKey(e)))
-					}
-				default:
-					// exhausted (or empty): all → true, any → false
-					if !(known && bv == isAll && e.IsNil()) {
-						probs = append(probs, fmt.Sprintf("after visiting every element without a decisive one the result must be (%v, nil) for %s; got (%s, %s)", isAll, oc.Name(), shortKey(b), shortKey(e)))
-					}
-				}
-				// per evaluation: root datum, fresh per-iteration option slice = incoming options followed by the new bindings
-				for n, ev := range bodies {
-					if ev.Callee != a.Dispatch {
-						probs = append(probs, "the body is evaluated through "+ev.Callee.Name()+", not through the dispatcher")
-					}
-					if len(ev.Args) < 3 || ev.Args[1].Key() != pDatum.Key() {
-						probs = append(probs, "the body must be evaluated against the root datum")
-						continue
-					}
-					base, parts := appendChain(sm.St, ev.Args[2])
-					okCopy := base != nil && base.IsNil() && len(parts) >= 1 && parts[0].Args[1].Key() == pOpt.Key()
-					if !okCopy && base != nil && base.K == sFresh && len(parts) >= 1 && parts[0].Args[1].Key() == pOpt.Key() {
-						// make([]Option, 0, n) + append(…, opt...): an empty slice made here, then the incoming options
-						if mk, isMk := base.V.(*ssa.MakeSlice); isMk {
-							if l := ps.sym(sm.St, mk.Len); l.K == sConst && l.C != nil && constant.Sign(l.C) == 0 {
-								okCopy = true
+				ps.Seed = func(st *pstate) {
+					st.eqc[opKey] = constKey(oc)
+					st.eqc[loadField(pExpr, "NameBinding", "Mode").Key()] = constKey(mc)
+					for _, f := range []string{"Default", "Index", "Value"} {
+						set := false
+						for _, n := range modeNames[mc.Name()] {
+							if n == f {
+								set = true
 							}
 						}
+						assume(st, &Sym{K: sCmp, Op: token.EQL, A: loadField(pExpr, "NameBinding", f), B: &Sym{K: sConst, C: constant.MakeString("")}}, !set)
 					}
-					if !okCopy && base != nil && base.K == sFresh {
-						// make([]Option, len(opt), …) + copy(innerOpt, opt): the other spelling of a fresh copy
-						if mk, isMk := base.V.(*ssa.MakeSlice); isMk {
-							lenOK := ps.sym(sm.St, mk.Len).Key() == (&Sym{K: sLen, A: pOpt}).Key()
-							copied := false
-							for _, e2 := range sm.Events() {
-								if isBuiltinCall(&e2, "copy") && len(e2.Args) == 2 && e2.Args[0].Key() == base.Key() && e2.Args[1].Key() == pOpt.Key() {
-									copied = true
+				}
+				errs := map[string]bool{}
+				ps.Model = func(ev *Event) *Sym {
+					if ev.Callee == a.GetValue {
+						return &Sym{K: sTuple, Kids: []*Sym{{K: sOpaque, V: ev.Instr.Value(), Str: "collection"}, {K: sConst, C: constant.MakeBool(true)}, nilSym()}}
+					}
+					if ev.Callee != nil && prog.InModule(ev.Callee) && isBoolErr(ev.Callee.Signature) && len(ev.Args) > 0 && ev.Args[0].Key() == loadField(pExpr, "Inner").Key() {
+						var e *Sym = nilSym()
+						if o.isErr() {
+							e = &Sym{K: sNewErr, V: ev.Instr.Value(), Str: "body"}
+							errs[e.Key()] = true
+						}
+						return &Sym{K: sTuple, Kids: []*Sym{{K: sConst, C: constant.MakeBool(o.boolVal())}, e}}
+					}
+					return nil
+				}
+				for _, sm := range ps.Run(fn) {
+					if sm.Panic != nil || len(sm.Results) != 2 {
+						r.Check(pfx+".fold", "shape", prog.pos(fn.Pos()), false, "panic or unexpected result shape")
+						continue
+					}
+					pos := prog.pos(sm.Ret.Pos())
+					trail := " [path " + strings.Join(sm.St.trail, " ") + "]"
+					// the reflected collection
+					var v *Sym
+					for _, ev := range sm.Events() {
+						if ev.Instr != nil && isReflectFunc(ev.Callee, "ValueOf") && v == nil {
+							v = ev.Res
+						}
+					}
+					cell := fmt.Sprintf("%s[%s,body=%s]", oc.Name(), strings.TrimPrefix(mc.Name(), "CollectionBind"), o)
+					var bodies []Event
+					for _, ev := range sm.Events() {
+						if ev.Instr != nil && ev.Callee != nil && len(ev.Args) > 0 && ev.Args[0].Key() == loadField(pExpr, "Inner").Key() && isBoolErr(ev.Callee.Signature) {
+							bodies = append(bodies, ev)
+						}
+					}
+					iters := 0
+					for _, t := range sm.St.trail {
+						if headerT[t] {
+							iters++
+						}
+					}
+					b, e := sm.Results[0], sm.Results[1]
+					if v == nil {
+						r.Check(pfx+".fold", cell+":no-valueof", pos, false, "the collection is not inspected through reflect.ValueOf"+trail)
+						continue
+					}
+					kset := ke.kinds(sm.St, v)
+					cls := "other"
+					switch {
+					case kset.SubsetOf(ks(kSlice, kArray)):
+						cls = "list"
+					case kset.SubsetOf(ks(kMap)):
+						cls = "map"
+					case kset&ks(kSlice, kArray, kMap) != 0:
+						cls = "undetermined"
+					}
+					classes[cls]++
+					var probs []string
+					if cls == "other" || cls == "undetermined" {
+						bv, okc := b.BoolConst()
+						if !(okc && !bv && errClass(sm, e) == "nonnil" && len(bodies) == 0) || cls == "undetermined" {
+							probs = append(probs, fmt.Sprintf("a collection of kind %s must be rejected with (false, error) before any evaluation; got (%s, %s)", kset, shortKey(b), shortKey(e)))
+						}
+						r.Check(pfx+".rejects-non-collections", cell+":"+cls, pos, len(probs) == 0, strings.Join(probs, "; ")+trail)
+						continue
+					}
+					if len(bodies) == 0 && errClass(sm, e) == "nonnil" {
+						// rejected before the loop (map with non-string keys, identical placeholders)
+						bv, okc := b.BoolConst()
+						r.Check(pfx+".fold", cell+":"+cls+":rejected", pos, okc && !bv, "an error return must carry false"+trail)
+						continue
+					}
+					// every iteration evaluates the body exactly once
+					decisive := (o == oT && isAny) || (o == oF && isAll) || o.isErr()
+					expectIn := iters
+					if len(bodies) != expectIn {
+						probs = append(probs, fmt.Sprintf("%d iterations but %d evaluations of the body: every element must be evaluated exactly once until the fold is decided", iters, len(bodies)))
+					}
+					bv, known := b.BoolConst()
+					if !known {
+						bv, known = evalBool(sm.St, b)
+					}
+					switch {
+					case len(bodies) > 0 && decisive:
+						// must have returned at the first evaluation
+						if len(bodies) != 1 {
+							probs = append(probs, fmt.Sprintf("the first decisive element or first error must end the fold; %d elements were evaluated", len(bodies)))
+						}
+						if o.isErr() {
+							if !(known && !bv && errs[e.Key()]) {
+								probs = append(probs, "an element error must end the fold with (false, that error); got ("+shortKey(b)+", "+shortKey(e)+")")
+							}
+						} else if !(known && bv == o.boolVal() && e.IsNil()) {
+							probs = append(probs, fmt.Sprintf("decisive element: expected (%v, nil), got (%s, %s)", o.boolVal(), shortKey(b), shortKey(e)))
+						}
+					default:
+						// exhausted (or empty): all → true, any → false
+						if !(known && bv == isAll && e.IsNil()) {
+							probs = append(probs, fmt.Sprintf("after visiting every element without a decisive one the result must be (%v, nil) for %s; got (%s, %s)", isAll, oc.Name(), shortKey(b), shortKey(e)))
+						}
+					}
+					// per evaluation: root datum, fresh per-iteration option slice = incoming options followed by the new bindings
+					for n, ev := range bodies {
+						if ev.Callee != a.Dispatch {
+							probs = append(probs, "the body is evaluated through "+ev.Callee.Name()+", not through the dispatcher")
+						}
+						if len(ev.Args) < 3 || ev.Args[1].Key() != pDatum.Key() {
+							probs = append(probs, "the body must be evaluated against the root datum")
+							continue
+						}
+						base, parts := appendChain(sm.St, ev.Args[2])
+						okCopy := base != nil && base.IsNil() && len(parts) >= 1 && parts[0].Args[1].Key() == pOpt.Key()
+						if !okCopy && base != nil && base.K == sFresh && len(parts) >= 1 && parts[0].Args[1].Key() == pOpt.Key() {
+							// make([]Option, 0, n) + append(…, opt...): an empty slice made here, then the incoming options
+							if mk, isMk := base.V.(*ssa.MakeSlice); isMk {
+								if l := ps.sym(sm.St, mk.Len); l.K == sConst && l.C != nil && constant.Sign(l.C) == 0 {
+									okCopy = true
 								}
 							}
-							if lenOK && copied {
-								okCopy = true
-								parts = append([]Event{{}}, parts...) // keep the indexing below: parts[1:] are the bindings
+						}
+						if !okCopy && base != nil && base.K == sFresh {
+							// make([]Option, len(opt), …) + copy(innerOpt, opt): the other spelling of a fresh copy
+							if mk, isMk := base.V.(*ssa.MakeSlice); isMk {
+								lenOK := ps.sym(sm.St, mk.Len).Key() == (&Sym{K: sLen, A: pOpt}).Key()
+								copied := false
+								for _, e2 := range sm.Events() {
+									if isBuiltinCall(&e2, "copy") && len(e2.Args) == 2 && e2.Args[0].Key() == base.Key() && e2.Args[1].Key() == pOpt.Key() {
+										copied = true
+									}
+								}
+								if lenOK && copied {
+									okCopy = true
+									parts = append([]Event{{}}, parts...) // keep the indexing below: parts[1:] are the bindings
+								}
 							}
 						}
+						if !okCopy {
+							probs = append(probs, fmt.Sprintf("iteration %d: the options handed to the body are not a fresh copy of the incoming options followed by the new bindings (base %s)", n, shortKey(base)))
+							continue
+						}
+						probs = append(probs, checkBindings(prog, sm, wlv, pExpr, v, cls, int64(n), flattenAppended(sm.St, parts[1:], 0))...)
 					}
-					if !okCopy {
-						probs = append(probs, fmt.Sprintf("iteration %d: the options handed to the body are not a fresh copy of the incoming options followed by the new bindings (base %s)", n, shortKey(base)))
-						continue
-					}
-					probs = append(probs, checkBindings(prog, sm, wlv, pExpr, v, cls, int64(n), flattenAppended(sm.St, parts[1:], 0))...)
+					r.Check(pfx+".fold", cell+":"+cls, pos, len(probs) == 0, strings.Join(uniq(probs), "; ")+trail)
 				}
-				r.Check(pfx+".fold", cell+":"+cls, pos, len(probs) == 0, strings.Join(uniq(probs), "; ")+trail)
 			}
-		}
 		}
 	}
 	for _, cl := range []string{"list", "map", "other"} {
@@ -659,64 +659,125 @@ func checkScan(r *Run, prog *Program, a *Anchors, pfx string) {
 		if header != nil {
 			break
 		}
-	for _, b := range cf.Blocks {
-		var pp, ip *ssa.Phi
-		for _, ins := range b.Instrs {
-			phi, ok := ins.(*ssa.Phi)
-			if !ok {
-				break
+		for _, b := range cf.Blocks {
+			var pp, ip *ssa.Phi
+			for _, ins := range b.Instrs {
+				phi, ok := ins.(*ssa.Phi)
+				if !ok {
+					break
+				}
+				if _, isSlice := phi.Type().Underlying().(*types.Slice); isSlice {
+					pp = phi
+				}
+				if bt, isB := phi.Type().Underlying().(*types.Basic); isB && bt.Info()&types.IsInteger != 0 {
+					ip = phi
+				}
 			}
-			if _, isSlice := phi.Type().Underlying().(*types.Slice); isSlice {
-				pp = phi
-			}
-			if bt, isB := phi.Type().Underlying().(*types.Basic); isB && bt.Info()&types.IsInteger != 0 {
-				ip = phi
-			}
-		}
-		if pp != nil && ip != nil {
-			if _, ok := b.Instrs[len(b.Instrs)-1].(*ssa.If); ok {
-				header, pathPhi, idxPhi = b, pp, ip
-				scanFn = cf
+			if pp != nil && ip != nil {
+				if _, ok := b.Instrs[len(b.Instrs)-1].(*ssa.If); ok {
+					header, pathPhi, idxPhi = b, pp, ip
+					scanFn = cf
+				}
 			}
 		}
 	}
-	}
+	// the same scan written as a recursion: a helper that looks at the last binding of the list it is given and calls itself
+	// with the list without that binding
+	var recPath *ssa.Parameter
+	recOK := false
 	if header == nil {
-		r.Fail("unresolved-anchor", pfx+".scan", "loop", prog.pos(fn.Pos()), "no scan loop over the local variables found in the value lookup")
+		for _, cf := range cands {
+			var pathP, locP *ssa.Parameter
+			for _, p := range cf.Params {
+				if sl, ok := p.Type().Underlying().(*types.Slice); ok {
+					if b, isB := sl.Elem().Underlying().(*types.Basic); isB && b.Kind() == types.String {
+						pathP = p
+					} else if _, isSt := sl.Elem().Underlying().(*types.Struct); isSt {
+						locP = p
+					}
+				}
+			}
+			if pathP == nil || locP == nil {
+				continue
+			}
+			selfCalls, okCalls, readsLast := 0, true, false
+			for _, b := range cf.Blocks {
+				for _, ins := range b.Instrs {
+					switch x := ins.(type) {
+					case *ssa.Call:
+						if x.Call.StaticCallee() != cf {
+							continue
+						}
+						selfCalls++
+						// the list handed on is locals[:len(locals)-1]
+						okArg := false
+						for i, p := range cf.Params {
+							if p == locP && i < len(x.Call.Args) {
+								if sl, ok := x.Call.Args[i].(*ssa.Slice); ok && sl.X == ssa.Value(locP) && sl.Low == nil && isLenMinusOne(sl.High, locP) {
+									okArg = true
+								}
+							}
+						}
+						if !okArg {
+							okCalls = false
+						}
+					case *ssa.IndexAddr:
+						if x.X == ssa.Value(locP) && isLenMinusOne(x.Index, locP) {
+							readsLast = true
+						}
+					}
+				}
+			}
+			if selfCalls > 0 {
+				scanFn, recPath = cf, pathP
+				recOK = okCalls && readsLast
+			}
+		}
+	}
+	if header == nil && scanFn == nil {
+		r.Fail("unresolved-anchor", pfx+".scan", "loop", prog.pos(fn.Pos()), "no scan over the local variables (a loop from the last binding down, or a recursion on the list without its last binding) found in the value lookup")
 		return
 	}
-	// descending from len-1 while i >= 0
 	desc := false
-	ifi := header.Instrs[len(header.Instrs)-1].(*ssa.If)
-	if bo, ok := ifi.Cond.(*ssa.BinOp); ok && bo.Op == token.GEQ && bo.X == ssa.Value(idxPhi) {
-		if c, ok := bo.Y.(*ssa.Const); ok {
-			if v, _ := constant.Int64Val(c.Value); v == 0 {
-				start, step := false, false
-				for _, e := range idxPhi.Edges {
-					if sub, ok := e.(*ssa.BinOp); ok && sub.Op == token.SUB {
-						if c2, ok := sub.Y.(*ssa.Const); ok {
-							if v2, _ := constant.Int64Val(c2.Value); v2 == 1 {
-								if sub.X == ssa.Value(idxPhi) {
-									step = true
-								} else if l, ok := sub.X.(*ssa.Call); ok {
-									if bi, ok := l.Call.Value.(*ssa.Builtin); ok && bi.Name() == "len" {
-										start = true
+	scanPos := prog.pos(scanFn.Pos())
+	if header != nil {
+		// descending from len-1 while i >= 0
+		ifi := header.Instrs[len(header.Instrs)-1].(*ssa.If)
+		if bo, ok := ifi.Cond.(*ssa.BinOp); ok && bo.Op == token.GEQ && bo.X == ssa.Value(idxPhi) {
+			if c, ok := bo.Y.(*ssa.Const); ok {
+				if v, _ := constant.Int64Val(c.Value); v == 0 {
+					start, step := false, false
+					for _, e := range idxPhi.Edges {
+						if sub, ok := e.(*ssa.BinOp); ok && sub.Op == token.SUB {
+							if c2, ok := sub.Y.(*ssa.Const); ok {
+								if v2, _ := constant.Int64Val(c2.Value); v2 == 1 {
+									if sub.X == ssa.Value(idxPhi) {
+										step = true
+									} else if l, ok := sub.X.(*ssa.Call); ok {
+										if bi, ok := l.Call.Value.(*ssa.Builtin); ok && bi.Name() == "len" {
+											start = true
+										}
 									}
 								}
 							}
 						}
 					}
+					desc = start && step
 				}
-				desc = start && step
 			}
 		}
+		scanPos = prog.pos(header.Instrs[len(header.Instrs)-1].Pos())
+	} else {
+		desc = recOK
 	}
-	r.Check(pfx+".scan", "innermost-first", prog.pos(ifi.Pos()), desc, "the scan over local variables must run from the last (innermost) binding down to 0")
+	r.Check(pfx+".scan", "innermost-first", scanPos, desc, "the scan over local variables must run from the last (innermost) binding down to 0")
 	// per iteration: the name compared is the first part of the *current* path; substitution builds a fresh prefix copy
 	ps := NewPathSim(prog)
 	ps.maxVisits = 3
 	ps.MaxDepth = 4
-	ps.Inline = func(c *ssa.Function) bool { return bexprHelper(prog, a, c) && !recursive(prog, c) }
+	ps.Inline = func(c *ssa.Function) bool { return bexprHelper(prog, a, c) }
+	ps.MaxDepth = 6
+	ps.Recursion = 3
 	type cmpRec struct {
 		cur, got string
 		pos      token.Pos
@@ -735,7 +796,12 @@ func checkScan(r *Run, prog *Program, a *Anchors, pfx string) {
 		if !isName(y) {
 			return
 		}
-		cur := ps.sym(st, pathPhi)
+		var cur *Sym
+		if pathPhi != nil {
+			cur = ps.sym(st, pathPhi)
+		} else {
+			cur = ps.sym(st, recPath) // the path as this activation received it
+		}
 		recs = append(recs, cmpRec{cur: (&Sym{K: sLoad, A: &Sym{K: sIndexAddr, A: cur, B: &Sym{K: sConst, C: constant.MakeInt64(0)}}}).Key(), got: x.Key(), pos: bo.Pos()})
 	}
 	sums := ps.Run(fn)
@@ -747,7 +813,7 @@ func checkScan(r *Run, prog *Program, a *Anchors, pfx string) {
 			ex = fmt.Sprintf("compares %s, the current path's first part is %s", rc.got, rc.cur)
 		}
 	}
-	r.Check(pfx+".scan", "name-reread-after-substitution", prog.pos(header.Instrs[0].Pos()), len(recs) >= 2 && bad == 0,
+	r.Check(pfx+".scan", "name-reread-after-substitution", scanPos, len(recs) >= 2 && bad == 0,
 		fmt.Sprintf("in each scan step the binding name must be compared with the first part of the path as rewritten so far (inner aliases resolve through outer ones); %d of %d comparisons differ: %s", bad, len(recs), ex))
 	// substitution shape on paths that substitute: final Parts = append(append(nil, lv.path...), path[1:]...)
 	nsub, okSub := 0, 0
@@ -872,4 +938,25 @@ func loopEvaluatesBody(prog *Program, a *Anchors, header *ssa.BasicBlock) bool {
 		}
 	}
 	return false
+}
+
+// isLenMinusOne: v is len(s) - 1 for the slice parameter s.
+func isLenMinusOne(v ssa.Value, s *ssa.Parameter) bool {
+	bo, ok := v.(*ssa.BinOp)
+	if !ok || bo.Op != token.SUB {
+		return false
+	}
+	c, ok := bo.Y.(*ssa.Const)
+	if !ok || c.Value == nil {
+		return false
+	}
+	if n, _ := constant.Int64Val(c.Value); n != 1 {
+		return false
+	}
+	l, ok := bo.X.(*ssa.Call)
+	if !ok {
+		return false
+	}
+	b, ok := l.Call.Value.(*ssa.Builtin)
+	return ok && b.Name() == "len" && len(l.Call.Args) == 1 && l.Call.Args[0] == ssa.Value(s)
 }
